@@ -235,6 +235,14 @@ def main(tier, seed):
         chk.extra["tlc_lead"] = lead
         log(f"TLC lead: {lead} violated in the model of the code as it is")
     chk.extra["cells_enumerated"] = len(cells)
+    # the same rules with the toolexec children that depend on the shared directory, and a nested command (Pipeline.tla);
+    # the what-if "an inherited GARBLE_SHARED is not forgotten" must be rejected
+    chk.add_tlc(tlc_must_pass("PipelineMC", "Pipeline-c19.cfg", timeout=1800))
+    rwp = tlc("PipelineMC", "Pipeline-mutant-inherit.cfg", timeout=900)
+    chk.add_tlc(rwp)
+    chk.extra["pipeline_whatif_inherited_shared_violates"] = rwp.violated
+    if not rwp.violated:
+        raise Inconclusive("Pipeline.tla what-if (inherited GARBLE_SHARED not forgotten) is no longer rejected")
 
     tool = make_linker_cache(work)
     world = World(work, tool)
